@@ -174,7 +174,9 @@ fn loco_of(k: u8) -> Locomotive {
 fn power_trace_engine_off(len: usize, fail_at: Option<usize>) -> PowerTrace {
     let time: Vec<f64> = (0..=len).map(|x| x as f64).collect();
     let off = |i: usize| i >= 2 && i % 4 == 2 && Some(i) != fail_at;
-    let pwr: Vec<f64> = (0..=len).map(|i| if Some(i) == fail_at { 1.0e12 } else if off(i) { 0.0 } else { 2.0e5 + 1.0e4 * i as f64 }).collect();
+    // demands stay below the engine's transient-limit floor (rating / 10 = 335.6 kW): right after a commanded-off step the
+    // published limit is back at that floor, and a step must fail only where the case says so
+    let pwr: Vec<f64> = (0..=len).map(|i| if Some(i) == fail_at { 1.0e12 } else if off(i) { 0.0 } else { 1.0e5 + 5.0e3 * i as f64 }).collect();
     let eng: Vec<Option<bool>> = (0..=len).map(|i| if off(i) { Some(false) } else if i % 3 == 0 { None } else { Some(true) }).collect();
     PowerTrace::new(time, pwr, eng)
 }
